@@ -6,6 +6,9 @@ ROOT = Path(__file__).resolve().parent
 reg = json.loads((ROOT / "harness" / "registry.json").read_text())
 for f in sorted((ROOT / "harness" / "registry.d").glob("*.json")):
     reg.update(json.loads(f.read_text()))
+# a property is claimed only after the coordinator integrated it (fix commits cherry-picked, seeds run)
+claimed = set((ROOT / "harness" / "claimed.txt").read_text().split())
+reg = {k: v for k, v in reg.items() if k in claimed}
 props = [json.loads(l) for l in (ROOT / "properties.jsonl").read_text().splitlines() if l.strip()]
 checks, na = [], []
 for p in props:
